@@ -409,6 +409,23 @@ func runC11(w *World, r *Report) {
 		r.check(held.Has("gossip.gossiper.mux", ""), "skip-informed-peers", name+"/under-lock", lineOf(w, g), "peer table is read under g.mux", "lockset "+held.String())
 	}
 
+	// the outgoing list is rebuilt from the verified set (toSlice(set)): an upstream gossiper that verifyGossipers
+	// leaves out falls off the list that travels on, and peers further down the line send the item back to it
+	r.rule("forwarded-list-keeps-upstream", "verifyGossipers keeps every well-formed, verifying upstream entry: the forwarded list is rebuilt from its result", 1)
+	if f := w.fx(r, "gossip", "gossiper", "verifyGossipers"); f != nil {
+		var ups []*ssa.MapUpdate
+		instrsOf(f.fn, func(in ssa.Instruction) {
+			if mu, ok := in.(*ssa.MapUpdate); ok {
+				ups = append(ups, mu)
+			}
+		})
+		if len(ups) == 1 {
+			everyEntryConsidered(w, r, "forwarded-list-keeps-upstream", f.fn, ups[0], strings.TrimSuffix(pathOf(ups[0].Key), ".Address"))
+		} else {
+			r.bad("forwarded-list-keeps-upstream", "verifyGossipers/insert", w.Pos(f.fn.Pos()), "exactly one insertion into the verified set", fmt.Sprintf("%d", len(ups)))
+		}
+	}
+
 	r.rule("origin-lists-self", "origin processes sign (self ‖ item hash), put the entry into the outgoing list and the set, and forward the item they received", 2)
 	for _, row := range []struct{ fn, forward, hashPath string }{{"runVertexGossipProcess", "gossipVertex", ".Hash"}, {"runTransactionGossipProcess", "gossipTransaction", ".Hash"}} {
 		f := w.fx(r, "gossip", "gossiper", row.fn)
@@ -431,9 +448,11 @@ func runC11(w *World, r *Report) {
 			}
 			// signed message = createGossiperMessageToSign(self, item hash)
 			signed := false
-			for _, dc := range deepCalls(f.fn, func(c ssa.CallInstruction) bool { return strings.HasSuffix(calleeName(c), ".createGossiperMessageToSign") }, 2) {
+			for _, dc := range deepCalls(f.fn, func(c ssa.CallInstruction) bool {
+				return strings.HasSuffix(calleeName(c), ".createGossiperMessageToSign")
+			}, 2) {
 				_, ca := callArgs(dc.c)
-				if isSelfAddressCall(ca[0]) && strings.HasSuffix(dc.path(ca[1]), row.hashPath) {
+				if len(ca) >= 2 && isSelfAddressCall(ca[0]) && strings.HasSuffix(dc.path(ca[1]), row.hashPath) {
 					signed = true
 				}
 			}
@@ -442,6 +461,79 @@ func runC11(w *World, r *Report) {
 		}
 		r.check(ok, "origin-lists-self", row.fn, w.Pos(f.fn.Pos()), "origin forwards with a set and list containing its own signed entry", why)
 	}
+}
+
+// everyEntryConsidered: in verifyGossipers each list element is verified unless it is malformed, and a
+// verified one is inserted into the set (shared by C11 — the forwarded list is rebuilt from this set — and C12).
+func everyEntryConsidered(w *World, r *Report, rule string, fn *ssa.Function, mu *ssa.MapUpdate, member string) {
+	// completeness: each list element is verified unless it is malformed, and a verified one is inserted
+	var okv ssa.Value
+	var hdr *ssa.BasicBlock
+	for _, blk := range fn.Blocks {
+		if blk.Comment == "rangeindex.loop" {
+			hdr = blk
+		}
+	}
+	skipped, dropped := 0, 0
+	var verifyCalls []ssa.Instruction
+	for _, c := range callsTo2(fn, ").Verify") {
+		verifyCalls = append(verifyCalls, c.(ssa.Instruction))
+	}
+	if hdr != nil && len(hdr.Succs) == 2 {
+		_ = okv
+		// malformed-element skips: edges carrying a nil/len fact about the ranged member that lead back to the header
+		isMalformedEdge := func(e Edge) bool {
+			for _, ft := range edgeFacts(e) {
+				if ft.kind == fIsNil && strings.HasPrefix(pathOf(ft.x), member) {
+					return true
+				}
+			}
+			iff, ok := e.From.Instrs[len(e.From.Instrs)-1].(*ssa.If)
+			if ok {
+				for _, lf := range lenFactsOf(iff.Cond, e.Idx != 0) { // the edge on which the length test FAILED
+					if strings.HasPrefix(lf.path, member) {
+						return true
+					}
+				}
+			}
+			return false
+		}
+		var cut []Edge
+		for _, blk := range fn.Blocks {
+			for i := range blk.Succs {
+				if isMalformedEdge(Edge{blk, i}) {
+					cut = append(cut, Edge{blk, i})
+				}
+			}
+		}
+		walkFrom(nil, hdr.Succs[0], edgeSet(cut), func(x ssa.Instruction) bool {
+			for _, vc := range verifyCalls {
+				if x == vc {
+					return true
+				}
+			}
+			if x.Block() == hdr {
+				skipped++
+				return true
+			}
+			return false
+		})
+		for _, c := range callsTo2(fn, ").Verify") {
+			for _, se := range passErrNil(c) {
+				walkFrom(nil, se.To(), nil, func(x ssa.Instruction) bool {
+					if x == ssa.Instruction(mu) {
+						return true
+					}
+					if x.Block() == hdr {
+						dropped++
+						return true
+					}
+					return false
+				})
+			}
+		}
+	}
+	r.check(hdr != nil && skipped == 0 && dropped == 0, rule, "verifyGossipers/every-entry-considered", lineOf(w, mu), "each listed gossiper is verified unless it is malformed (nil / wrong digest length), and every verified one enters the set", fmt.Sprintf("%d ways to skip verification for a well-formed entry, %d ways to drop a verified entry", skipped, dropped))
 }
 
 func runC12(w *World, r *Report) {
@@ -471,6 +563,10 @@ func runC12(w *World, r *Report) {
 					why = "verified message is not createGossiperMessageToSign(…)"
 					continue
 				}
+				if len(mc.Call.Args) < 2 {
+					why = "the signed gossiper statement is built from fewer than two inputs: address and item hash must both contribute"
+					continue
+				}
 				bind := pathOf(mc.Call.Args[0]) == kp && pathOf(mc.Call.Args[1]) == hash &&
 					pathOf(a[1]) == member+".Signature" && pathOf(a[2]) == member+".Digest" && pathOf(a[3]) == kp
 				if !bind {
@@ -484,74 +580,7 @@ func runC12(w *World, r *Report) {
 				}
 			}
 			r.check(ok, "entry-verified", "verifyGossipers/insert", lineOf(w, mu), "only entries whose signature verifies for (their own address, this item's hash) enter the set", why)
-			// completeness: each list element is verified unless it is malformed, and a verified one is inserted
-			var okv ssa.Value
-			var hdr *ssa.BasicBlock
-			for _, blk := range fn.Blocks {
-				if blk.Comment == "rangeindex.loop" {
-					hdr = blk
-				}
-			}
-			skipped, dropped := 0, 0
-			var verifyCalls []ssa.Instruction
-			for _, c := range callsTo2(fn, ").Verify") {
-				verifyCalls = append(verifyCalls, c.(ssa.Instruction))
-			}
-			if hdr != nil && len(hdr.Succs) == 2 {
-				_ = okv
-				// malformed-element skips: edges carrying a nil/len fact about the ranged member that lead back to the header
-				isMalformedEdge := func(e Edge) bool {
-					for _, ft := range edgeFacts(e) {
-						if ft.kind == fIsNil && strings.HasPrefix(pathOf(ft.x), member) {
-							return true
-						}
-					}
-					iff, ok := e.From.Instrs[len(e.From.Instrs)-1].(*ssa.If)
-					if ok {
-						for _, lf := range lenFactsOf(iff.Cond, e.Idx != 0) { // the edge on which the length test FAILED
-							if strings.HasPrefix(lf.path, member) {
-								return true
-							}
-						}
-					}
-					return false
-				}
-				var cut []Edge
-				for _, blk := range fn.Blocks {
-					for i := range blk.Succs {
-						if isMalformedEdge(Edge{blk, i}) {
-							cut = append(cut, Edge{blk, i})
-						}
-					}
-				}
-				walkFrom(nil, hdr.Succs[0], edgeSet(cut), func(x ssa.Instruction) bool {
-					for _, vc := range verifyCalls {
-						if x == vc {
-							return true
-						}
-					}
-					if x.Block() == hdr {
-						skipped++
-						return true
-					}
-					return false
-				})
-				for _, c := range callsTo2(fn, ").Verify") {
-					for _, se := range passErrNil(c) {
-						walkFrom(nil, se.To(), nil, func(x ssa.Instruction) bool {
-							if x == ssa.Instruction(mu) {
-								return true
-							}
-							if x.Block() == hdr {
-								dropped++
-								return true
-							}
-							return false
-						})
-					}
-				}
-			}
-			r.check(hdr != nil && skipped == 0 && dropped == 0, "entry-verified", "verifyGossipers/every-entry-considered", lineOf(w, mu), "each listed gossiper is verified unless it is malformed (nil / wrong digest length), and every verified one enters the set", fmt.Sprintf("%d ways to skip verification for a well-formed entry, %d ways to drop a verified entry", skipped, dropped))
+			everyEntryConsidered(w, r, "entry-verified", fn, mu, member)
 			// the returned map is the one filled
 			retOK := true
 			for _, ret := range returnsOf(fn) {
@@ -579,7 +608,8 @@ func runC12(w *World, r *Report) {
 				}
 			}
 		})
-		r.check(used[f.fn.Params[0].Name()] && used[f.fn.Params[1].Name()], "entry-verified", "createGossiperMessageToSign/both-inputs", w.Pos(f.fn.Pos()), "address and item hash both contribute to the signed bytes", fmt.Sprintf("%v", used))
+		both := len(f.fn.Params) >= 2 && used[f.fn.Params[0].Name()] && used[f.fn.Params[1].Name()]
+		r.check(both, "entry-verified", "createGossiperMessageToSign/both-inputs", w.Pos(f.fn.Pos()), "address and item hash both contribute to the signed bytes (a statement over the bare hash is indistinguishable from other signed requests for that hash)", fmt.Sprintf("parameters=%d used=%v", len(f.fn.Params), used))
 	}
 
 	r.rule("hash-bound-to-item", "handlers verify the list against the hash of the very item they process and forward", 2)
